@@ -14,7 +14,10 @@ mvars == <<cvars, fv>>
 Verbs == {"GET", "POST", "PUT", "DELETE", "PATCH"}
 UrlKinds == {"string", "int32", "int64", "uint32", "uint64", "sint32", "sfixed64", "fixed32", "bool", "float", "double"}
 Classes == {"ord", "zero", "min", "max", "big53", "nonascii", "urlreserved"}
-BodyShapes == {"string", "int64", "msg", "rep", "map", "opt", "enum", "bytes", "double", "oneof", "ts"}
+\* (the last two carry a JSON-mapping annotation, int64_encoding NUMBER: the body then has a number where proto3
+\* JSON has a string, and the values are beyond 2^53; the other annotations' wire forms are C04 / C05 / C14's)
+BodyShapes == {"string", "int64", "msg", "rep", "map", "opt", "enum", "bytes", "double", "oneof", "ts",
+               "int64num", "uint64num"}
 Ctypes == {"json", "proto", "octet"}
 \* route: "explicit" = the RPC has an http config with a path template /s<i>/{p}; "default" = no http
 \* config at all (route derived from package and method name, verb POST, no URL-bound fields)
